@@ -83,6 +83,15 @@ class CharacterizeMonitor(object):
             ctx.count("c05_characterize_calls")
             try:
                 ent = orig(cls, record)
+            except NotImplementedError as e:
+                # a subclass of RuntimeError, but not the documented "could not find the type" failure: it means a
+                # candidate without a usable signature was instantiated.  The workload never offers an abstract
+                # *candidate* (every direct subclass of the family bases it builds is concrete), so on a correct
+                # tree this cannot happen.
+                ctx.count("c05_characterize_raised")
+                ctx.violation("characterize-leaks-NotImplementedError", "%s.characterize raised NotImplementedError (%s) instead of reporting that no candidate type accepts the record; candidates %s" % (
+                    cls.__name__, str(e)[:80], [c.__name__ for c in cands]), base=cls.__name__, seq=str(record.seq)[:600])
+                raise
             except RuntimeError as e:
                 ctx.count("c05_characterize_raised")
                 acc = [c.__name__ for c in cands if _fresh_accepts(c, record)]
@@ -214,8 +223,9 @@ def execute(mat, ctx):
         import importlib
 
         modname, clsname = mat["base"].split(".")
-        base = getattr(importlib.import_module("moclo.kits." + modname), clsname)
-        subs = list(base.__subclasses__())
+        kitbase = getattr(importlib.import_module("moclo.kits." + modname), clsname)
+        subs = list(kitbase.__subclasses__())
+        base = kitbase
         rng = gen.rng_for(mat["seed"], PROP, "char", mat["base"])
         for j in range(mat["count"]):
             ctx.count("evaluations")
@@ -229,10 +239,13 @@ def execute(mat, ctx):
                     i = rng.randrange(len(s))
                     s = s[:i] + rng.choice("ACGT") + s[i + 1:]
             s = rot_left(s, rng.randrange(len(s)))
-            try:
-                base.characterize(_record(s))   # judged by the monitor
-            except RuntimeError:
-                pass
+            for b in (kitbase,):
+                try:
+                    b.characterize(_record(s))   # judged by the monitor
+                except RuntimeError:
+                    pass
+                except NotImplementedError:
+                    pass                          # recorded by the monitor as a wrong exception
             ctx.nontrivial([mat["base"], s])
         ctx.sample({"kind": "characterize-kit", "base": mat["base"], "candidates": [c.__name__ for c in subs][:6]}, cap=1)
     else:
@@ -247,8 +260,14 @@ def execute(mat, ctx):
             role = rng.choice([V, M])
             concrete_base = rng.random() < 0.3
             attrs = {"cutter": enz}
-            attrs["signature"] = ("N" * k, "N" * k) if concrete_base else NotImplemented
+            if concrete_base:
+                attrs["signature"] = ("N" * k, "N" * k)
+            elif rng.random() < 0.5:
+                attrs["signature"] = NotImplemented      # restated, as the bundled kit bases do
+            # else: the family base merely inherits signature = NotImplemented from AbstractPart
             base = type(str("UBase%d" % j), (AbstractPart,), attrs) if not concrete_base else type(str("UBase%d" % j), (AbstractPart, role), attrs)
+            if not concrete_base and rng.random() < 0.3:
+                base = type(str("UMid%d" % j), (base,), {"__doc__": "intermediate family base adding nothing"})
             subs = []
             nsub = rng.randint(1, 6)
             sigs = [(gen.rand_dna(rng, k), gen.rand_dna(rng, k)) for _ in range(nsub)]
@@ -268,6 +287,6 @@ def execute(mat, ctx):
                 s = rot_left(s + gen.rand_dna(rng, rng.randint(2, 15)), rng.randrange(10))
                 try:
                     base.characterize(_record(s))
-                except RuntimeError:
+                except (RuntimeError, NotImplementedError):
                     pass
                 ctx.nontrivial(["charuser", j, s])
